@@ -52,7 +52,10 @@ def CallsOK (fl : Bool) (F : Nat) (prog : List Term) (query : Term) (max : Nat) 
     (queryPromise prog (SLD.shift 10 query) max none).2
 
 theorem callsOK_false (F : Nat) (prog : List Term) (query : Term) (max : Nat) : CallsOK false F prog query max :=
-  fun _ _ _ _ hfl => by cases hfl
+  fun _ _ _ _ => by
+    cases F with
+    | zero => exact trivial
+    | succ F' => exact fun hfl => by cases hfl
 
 /-- **the search of the query**: the VM's search of the query's promise against the reference's
     `call/1` of the query -/
@@ -91,13 +94,14 @@ theorem vm_query {fl : Bool} (prog : List Term) (query : Term) (max : Nat) (hfra
       exact (hqv v hv).2
   have hq : query = img (fun v => .var v) (· - 10) query' := by
     rw [img_id]; exact (unshift 10 query).symm
-  have hok0 : LvOK ([] : Lv) 0 := ⟨List.nodup_nil, fun _ h => by simp at h, .nil, fun _ h => by simp at h⟩
+  have hok0 : LvOK none ([] : Lv) 0 := ⟨List.nodup_nil, fun _ h => by simp at h, .nil, fun _ h => by simp at h,
+    (fun _ h => by cases h), (fun _ h => by cases h)⟩
   have hgv0 : ∀ v, query'.hasVar v = true → RV (fun v => Term.var v) (fun v => query'.hasVar v = true) v :=
     fun v hv => ⟨v, hv, by simp [Term.hasVar]⟩
   obtain ⟨hW2, hgD2, hitem⟩ := call_item (fl := fl) (d := 0) hsim0 hb' hw' hgv0
   have hqr : query'.rename (· - 10) = query := unshift 10 query
   rw [hqr] at hitem
-  have hspec : PSpec fl query' max prog [] 0
+  have hspec : PSpec fl none query' max prog [] 0
       ({ id := 1, delayed := [Thunk.clause (clauseOf (qClause query')) (argList (qHead query'))
           (.collect query' max) [] 1] } : Pr)
       { startM prog with user := { (startM prog).user with nextId := 2 } } [] r1 := by
@@ -105,12 +109,12 @@ theorem vm_query {fl : Bool} (prog : List Term) (query : Term) (max : Nat) (hfra
       (g := qHead query') (K := .collect query' max) (env := []) (R := []) (q := query) (nv := B) (n := n)
       hans0 (by decide) (qHead_shape query') ?_ (by simpa using hs)
     refine ⟨1000000, fun v => .var v, (· - 10), _, [], Nat.le_of_eq hnv0.symm,
-      hW2, .collect, .nil, CutsOK.nil _, hq, hgD2, .cons hitem .nil⟩
+      hW2, .collect rfl, .nil rfl, CutsOK.nil _, hq, hgD2, .cons hitem .nil⟩
   rcases tp_all (tmpl := query') (max := max) (prog := prog) (F := F) hprog k _ [] _ sig m' hd hgood 0 [] r1 hspec.toW hok0
-      ⟨rfl, by show 0 < 2; omega⟩ hmax with hill | hm
+      ⟨rfl, by show 0 < 2; omega, initState_cancelAt prog⟩ hmax with hill | hm
   · exact Or.inl hill
   · right
-    obtain ⟨new, hnew, hfa⟩ := hm.ans
+    obtain ⟨new, hnew, hfa, _⟩ := hm.ans
     refine ⟨by rw [hnew, List.append_nil]; exact hfa, ?_⟩
     rcases hm.stop with ⟨h1, h2, _⟩ | ⟨c, l, _, _, h3, _⟩ | ⟨h1, h2⟩ | ⟨F', c1, c2, ex, co, h1, h2⟩
     · rw [h1, h2]; trivial
